@@ -172,4 +172,5 @@ def cases(draw):
 
 
 def subs(tier):
-    return [Sub("family", cases(), run_case, quick=384, thorough=6000, needs=("rel", "h5x"), shrink_budget=40)]
+    return [Sub("family", cases(), run_case, quick=384, thorough=6000, needs=("rel", "h5x"), shrink_budget=40,
+                max_wall={"quick": 420, "thorough": 3000})]
